@@ -363,6 +363,13 @@ def check_C18(pid, tier, seed, chk):
         cs = gen.generate(comp, seed, n, nops, opts, first_id=nid)
         nid += len(cs)
         cases += cs
+    # the ghost-list flows of 2Q and ARC (revival with and without a free slot, ghost list full) need a longer prefix than
+    # the other paths: extra, somewhat longer histories for these two
+    for comp in ("twoq", "arc"):
+        opts = dict(variant="keys=trk hasher=default", iter=1, clone=0)
+        cs = gen.generate(comp, seed + 1, (2 * n) // 3, nops + 10, opts, first_id=nid)
+        nid += len(cs)
+        cases += cs
     if tier != "quick":
         # soak: churn at full load makes the hash map of a plain LRU rehash (all keys re-hashed inside one `insert`): a panic
         # injected into that burst must leave the cache as the abort model says (entry absent, nothing lost)
